@@ -57,7 +57,8 @@ def hitsound_copy(osu_src: OsuMap, osu_tgt: OsuMap) -> OsuMap:
     # We'll just get the target data (with its own sounds reset) then export it
     # again
     df = pd.concat([i.df for i in osu_tgt.notes], sort=False)
-    df = df.sort_values("offset").reset_index(drop=True)
+    # Notes at one time take the sounds in column order, whatever their row order
+    df = df.sort_values(["offset", "column"]).reset_index(drop=True)
     df_to_offsets = df["offset"]
 
     # The idea is to loop through unique offsets
